@@ -8,6 +8,11 @@
 #include <algorithm>
 #include <chrono>
 #include <csignal>
+#include <sys/prctl.h>
+#include <dlfcn.h>
+#include <pthread.h>
+#include <time.h>
+#include <errno.h>
 #include <cstdarg>
 #include <cstdint>
 #include <cstdio>
@@ -518,6 +523,9 @@ inline void writeReport(const char * path, Ctx & ctx, const UnitReport & rep, do
 inline int frameworkMain(int argc, char ** argv, const char * harnessName) {
 	std::string mode = "run", out, crumbPath, seqStr, unitSel;
 	int tier = 0; double deadline = 0; int stall = 60;
+	// waitFor(0) on a real std::condition_variable is a timed futex wait; with the default 50 us timer slack every such call sleeps
+	// ~55 us although its deadline has passed. The harnesses make millions of them: ask for the minimum slack (verdicts do not depend on it).
+	prctl(PR_SET_TIMERSLACK, 1UL, 0UL, 0UL, 0UL);
 	for(int i = 1; i < argc; ++i) {
 		std::string a = argv[i];
 		auto next = [&]() -> std::string { return i + 1 < argc ? argv[++i] : ""; };
@@ -570,4 +578,17 @@ inline int frameworkMain(int argc, char ** argv, const char * harnessName) {
 
 } // namespace verif
 
-#define VERIF_MAIN(name) int main(int argc, char ** argv) { return verif::frameworkMain(argc, argv, name); }
+// Interposed libc entry (one definition per harness binary, placed by VERIF_MAIN): a timed condition wait whose absolute
+// deadline has ALREADY passed returns ETIMEDOUT at once - the POSIX result - instead of making a futex round trip
+// (~20-55 us each in this sandbox; the single-threaded harnesses call waitFor(0) millions of times). Calls with a deadline
+// in the future go to the real function. Only the threads of Engine H/F harnesses (one thread) ever get here: Engine S
+// uses its own condition variable.
+#define VERIF_CONDWAIT_SHORTCUT \
+	extern "C" int pthread_cond_clockwait(pthread_cond_t * c, pthread_mutex_t * m, clockid_t clk, const struct timespec * abstime) { \
+		typedef int (*Fn)(pthread_cond_t *, pthread_mutex_t *, clockid_t, const struct timespec *); \
+		static Fn real = (Fn)dlsym(RTLD_NEXT, "pthread_cond_clockwait"); \
+		struct timespec now; \
+		if(clock_gettime(clk, &now) == 0 && (now.tv_sec > abstime->tv_sec || (now.tv_sec == abstime->tv_sec && now.tv_nsec >= abstime->tv_nsec))) return ETIMEDOUT; \
+		return real(c, m, clk, abstime); \
+	}
+#define VERIF_MAIN(name) VERIF_CONDWAIT_SHORTCUT int main(int argc, char ** argv) { return verif::frameworkMain(argc, argv, name); }
